@@ -449,6 +449,20 @@ func TestVF_C19_Produce(t *testing.T) {
 					}
 				}
 			}
+			if expiryCase && q > 0 && rapid.Bool().Draw(rt, "expireBefore") {
+				did, err := w.expireSelf()
+				fail("", err)
+				if did {
+					moves = append(moves, "self-session-expired")
+					st.Class("self-expire-between-requests")
+					// a foreign broker may grab one of the partitions this broker just lost
+					if rapid.Bool().Draw(rt, "takeover") {
+						p := w.universe[rapid.IntRange(0, 4).Draw(rt, "takeoverPart")]
+						err := w.foreign[0].Acquire(context.Background(), p.Topic, p.P)
+						moves = append(moves, fmt.Sprintf("b2.acquire(%s)=%v", p, err))
+					}
+				}
+			}
 			w.trace = append(w.trace, moves...)
 			np := rapid.IntRange(1, 4).Draw(rt, "nparts")
 			var parts []c19Part
